@@ -10,76 +10,15 @@ import (
 // Common returns the declarations shared by all scenarios of a bundle.
 func Common(f Features) string {
 	var sb strings.Builder
+	common := commonDecls
+	if !f.Yield {
+		// without the yield feature the reserved sites disappear
+		for i := 200; i < 210; i++ {
+			common = strings.ReplaceAll(common, fmt.Sprintf("yield(%d); ", i), "")
+		}
+	}
+	sb.WriteString(common)
 	sb.WriteString(`
-// rtq is rt.go's q under a name that generated locals never shadow.
-func rtq(s string) string { return q(s) }
-
-// lim keeps int values far inside 32 bits (the generator's soundness rule for int).
-func lim(x int) int {
-	x %= 100003
-	return x
-}
-
-// ix reduces an index modulo a positive length.
-func ix(i, n int) int {
-	if n <= 0 {
-		return 0
-	}
-	return ((i % n) + n) % n
-}
-
-func cut(s string) string {
-	if len(s) > 24 {
-		return s[len(s)-24:]
-	}
-	return s
-}
-
-func sub(s string, n int) string {
-	if n < 0 {
-		n = -n
-	}
-	if n > len(s) {
-		n = len(s)
-	}
-	return s[:n]
-}
-
-func fclamp(f float64) float64 {
-	if f != f || f > 1e9 || f < -1e9 {
-		return 1.5
-	}
-	return f
-}
-
-func vsum(xs ...int) int {
-	t := len(xs)
-	for _, x := range xs {
-		t = lim(t + x)
-	}
-	return t
-}
-
-type P struct {
-	a int
-	b string
-	c [2]int
-}
-
-func (p P) sum(k int) int { p.a += k; return lim(p.a + p.c[0] + p.c[1] + len(p.b)) }
-func (p *P) bump(k int)   { p.a = lim(p.a + k); p.c[1]++ }
-func (p *P) Area(k int) int { return lim(p.a * k) }
-func (p *P) name() string { return "P" }
-
-type sq int
-
-func (s sq) Area(k int) int { return lim(int(s) * int(s) + k) }
-func (s sq) name() string   { return "sq" }
-
-type Shape interface {
-	Area(int) int
-	name() string
-}
 `)
 	if f.Generics {
 		sb.WriteString(`
@@ -108,7 +47,7 @@ func gsum[T number](xs []T) T {
 
 type gstack[T any] struct{ items []T }
 
-func (s *gstack[T]) push(v T) { s.items = append(s.items, v) }
+func (s *gstack[T]) push(v T) { gyield(205); s.items = append(s.items, v) }
 func (s *gstack[T]) pop() T {
 	v := s.items[len(s.items)-1]
 	s.items = s.items[:len(s.items)-1]
@@ -117,6 +56,7 @@ func (s *gstack[T]) pop() T {
 func (s *gstack[T]) len() int { return len(s.items) }
 
 func gmap[T, U any](xs []T, f func(T) U) []U {
+	gyield(206)
 	var out []U
 	for _, x := range xs {
 		out = append(out, f(x))
@@ -129,6 +69,13 @@ type gpair[K comparable, V any] struct {
 	v V
 }
 `)
+	}
+	if f.Generics {
+		if f.Yield {
+			sb.WriteString("\nfunc gyield(id int) { yield(id) }\n")
+		} else {
+			sb.WriteString("\nfunc gyield(id int) {}\n")
+		}
 	}
 	if f.Yield && f.YieldStub {
 		sb.WriteString(`
@@ -326,3 +273,75 @@ func Bundle(scs []Scenario, f Features) map[string]string {
 	}
 	return files
 }
+
+const commonDecls = `
+// rtq is rt.go's q under a name that generated locals never shadow.
+func rtq(s string) string { return q(s) }
+
+// lim keeps int values far inside 32 bits (the generator's soundness rule for int).
+func lim(x int) int {
+	x %= 100003
+	return x
+}
+
+// ix reduces an index modulo a positive length.
+func ix(i, n int) int {
+	if n <= 0 {
+		return 0
+	}
+	return ((i % n) + n) % n
+}
+
+func cut(s string) string {
+	if len(s) > 24 {
+		return s[len(s)-24:]
+	}
+	return s
+}
+
+func sub(s string, n int) string {
+	if n < 0 {
+		n = -n
+	}
+	if n > len(s) {
+		n = len(s)
+	}
+	return s[:n]
+}
+
+func fclamp(f float64) float64 {
+	if f != f || f > 1e9 || f < -1e9 {
+		return 1.5
+	}
+	return f
+}
+
+func vsum(xs ...int) int {
+	yield(204); t := len(xs)
+	for _, x := range xs {
+		t = lim(t + x)
+	}
+	return t
+}
+
+type P struct {
+	a int
+	b string
+	c [2]int
+}
+
+func (p P) sum(k int) int { yield(200); p.a += k; return lim(p.a + p.c[0] + p.c[1] + len(p.b)) }
+func (p *P) bump(k int)   { yield(201); p.a = lim(p.a + k); p.c[1]++ }
+func (p *P) Area(k int) int { yield(202); return lim(p.a * k) }
+func (p *P) name() string { return "P" }
+
+type sq int
+
+func (s sq) Area(k int) int { yield(203); return lim(int(s) * int(s) + k) }
+func (s sq) name() string   { return "sq" }
+
+type Shape interface {
+	Area(int) int
+	name() string
+}
+`
